@@ -4,7 +4,7 @@
    compute_features, which — as repaired — works on copies, so a fit observes exactly the current
    contents and leaves them alone.  The Legacy step function writes min_n_cycles back into the
    stored dictionaries, as the code did before the repair. *)
-From Coq Require Import List Bool Arith ZArith String.
+From Coq Require Import List Bool Arith ZArith String Floats.PrimFloat.
 Import ListNotations.
 From ByC Require Import Base.Result Harness.Compare.
 Local Open Scope string_scope.
@@ -35,6 +35,17 @@ Definition expand_thresholds (d : dict) : dict :=
 (* reduce_thresholds: a NEW dictionary, v - r on keys ending in 'threshold' *)
 Definition reduce_thresholds (d : dict) (r : Z) : dict :=
   map (fun kv => if ends_with (fst kv) "threshold" then (fst kv, snd kv - r)%Z else kv) d.
+
+(* the same method on the numbers themselves (objs/fit.py:72-95): thresholds are binary64 values and the
+   lowered threshold is the binary64 difference v - r, nothing else (no rounding to decimals, no
+   clipping); reduction=None stands for 0; every other entry (min_n_cycles) is copied.  Used by the
+   correspondence runner [bad_reduce], which compares the method's result bit by bit. *)
+Definition fdict := list (string * float).
+Fixpoint flookup (d : fdict) (k : string) : option float :=
+  match d with [] => None | (k', v) :: t => if String.eqb k k' then Some v else flookup t k end.
+Definition reduce_thresholds_f (d : fdict) (r : option float) : fdict :=
+  let r' := match r with Some x => x | None => 0%float end in
+  map (fun kv => if ends_with (fst kv) "threshold" then (fst kv, (snd kv - r')%float) else kv) d.
 
 Record settings := { st_center : bool; st_amp : bool; st_bk : dict; st_thr : dict; st_fek : Z; st_rs : bool }.
 Definition settings_eqb (a b : settings) : bool :=
@@ -287,3 +298,21 @@ Definition gobs_eqb (a b : gobs) : bool :=
   let '(o, s, m, c) := a in let '(o', s', m', c') := b in
   obs_eqb o o' && list_eqb Z.eqb s s' && list_eqb Bool.eqb m m' && list_eqb Bool.eqb c c'.
 Definition bad_group_history := report run_group_history (result_eqb gobs_eqb).
+
+(* reduce_thresholds(r) of a freshly constructed object: the stored dictionary is the given one (keys
+   already expanded by the harness) or, for thresholds=None, the documented defaults of the method *)
+Definition default_thr_f (amp : bool) : fdict :=
+  if amp then [("burst_fraction_threshold", 1%float); ("min_n_cycles", 3%float)]
+  else [("amp_fraction_threshold", 0%float); ("amp_consistency_threshold", 0x1p-1%float);
+        ("period_consistency_threshold", 0x1p-1%float); ("monotonicity_threshold", 0x1.999999999999ap-1%float);
+        ("min_n_cycles", 3%float)].
+Definition run_reduce (x : bool * option fdict * list (option float)) : result (list fdict) :=
+  let '(amp, thr, rs) := x in
+  let stored := match thr with Some d => d | None => default_thr_f amp end in
+  Ok (map (reduce_thresholds_f stored) rs).
+(* bit by bit, except that +0 and -0 are not told apart and any NaN equals any NaN *)
+Definition fbits_eqb (a b : float) : bool := (negb (a =? a)%float && negb (b =? b)%float) || (a =? b)%float.
+Definition fdict_eqb (a b : fdict) : bool :=
+  Nat.eqb (List.length a) (List.length b) &&
+  forallb (fun k => option_eqb fbits_eqb (flookup a k) (flookup b k)) (map fst a ++ map fst b)%list.
+Definition bad_reduce := report run_reduce (result_eqb (list_eqb fdict_eqb)).
